@@ -86,20 +86,22 @@ structure Env where
 
 def resolve (root : P) (raw : String) : P := cleanSegs true root.reverse (segments raw)
 
-/-- `Loader.Load` of locloader.go on a local path: the file as (directory below the root, name, content),
-    or `none` for every rejection -/
-def loadFile (E : Env) (fs : FS) (root : P) (raw : String) : Option (P × String × String) :=
-  -- an absolute spelling is accepted as long as it stays inside the root
-  let p := if isAbs raw then resolve [] raw else resolve root raw
+/-- the checks of `Loader.Load` (locloader.go) on the cleaned path `p` -/
+def loadFileAt (E : Env) (fs : FS) (root p : P) : Option (P × String × String) :=
   if E.bad p then none
   else match fs p with
-      | some (.file c) =>
-        if root.isPrefixOf p ∧ !(E.newDir.isPrefixOf p.dropLast) then
-          match (p.drop root.length).reverse with
-          | [] => none
-          | name :: dr => some (dr.reverse, name, c)
-        else none
-      | _ => none
+    | some (.file c) =>
+      if root.isPrefixOf p ∧ !(E.newDir.isPrefixOf p.dropLast) then
+        match (p.drop root.length).reverse with
+        | [] => none
+        | name :: dr => some (dr.reverse, name, c)
+      else none
+    | _ => none
+
+/-- `Loader.Load` of locloader.go on a local path: the file as (directory below the root, name, content),
+    or `none` for every rejection; an absolute spelling is accepted as long as it stays inside the root -/
+def loadFile (E : Env) (fs : FS) (root : P) (raw : String) : Option (P × String × String) :=
+  loadFileAt E fs root (if isAbs raw then resolve [] raw else resolve root raw)
 
 /-- `Loader.New`: the new root, inside the scope, outside the destination, not at or above a root in use -/
 def newRoot (E : Env) (fs : FS) (stack : List P) (root : P) (raw : String) : Option P :=
